@@ -11,6 +11,9 @@ models inside Coq on the same inputs (exact dyadic f64 values) and bound the dif
   mix_*.v    A^ig, dA/dV, dA/dT, d2A/dT2, dA/dN_i of the IdealGas trait on dual numbers vs the model; mixture c_p
   state_*.v  every getter x {IdealGas, Residual, Total} of the State API vs StateSelC10.value on the primitive jets;
              ideal pressure in SI (rho R T with the constants; -dA^ig/dV converted); ideal mixing in SI
+Sampling always contains the corners of the property's quantifier (density 1e-12 rho_max with a trace component x_j = 1e-6) next to
+random thin-gas / trace-composition states; a sweep of the IdealGas trait on dual numbers (ideal mixing, Euler relation, -dA/dV = rho T)
+covers every density decade.
 Oracle on the implementation alone (always on): Total = IdealGas + Residual to 1e-12 of the term scale for every getter,
 c_p(State) = c_p(direct), rho_i = 0 guard, and the zero-density sweep (support search for the partial clause).
 """
